@@ -40,17 +40,45 @@ def build(repo, findings):
         C('C06,C05 unsubscripted-value-reads-as-empty-when-unset', 'r@ == (match scalar_view(*self) { Some(t) => t, None => Seq::<char>::empty() })'),
     ])
     u.add(g)
+    # ---- element_keys / element_values: a scalar, empty or not, is the one element 0; an unset value has none
+    for fnk, stub_a, stub_i, what in (('element_keys', 'assoc_keys', 'indexed_keys', 'keys'), ('element_values', 'assoc_values', 'indexed_values', 'values')):
+        h = va.method_anywhere(fnk).r1().r4().r11()
+        h.resub(r'shell: &Shell<impl extensions::ShellExtensions>', 'shell: &Shell', 'R4', 'extension generic erased', count=None)
+        h.resub(r'(Self::IndexedArray\(array\) => )array\.%s\(\)\.map\(\|\w\| \w\.to_(?:string|owned)\(\)\)\.collect\(\)' % what, r'\1%s(array)' % stub_i, 'R14', 'iterator chain over the indexed map -> stub', count=None)
+        h.resub(r'array\.%s\(\)\.map\(\|\w\| \w\.to_owned\(\)\)\.collect\(\)' % what, '%s(array)' % stub_a, 'R14', 'iterator chain over the associative map -> stub', count=None)
+        h.resub(r'getter\(shell\)\.%s\(shell\)' % fnk, 'dynamic_%s(getter, shell)' % what, 'R14', 'call through the getter fn pointer -> stub', count=None)
+        h.resub(r'vec!\["0"\.to_owned\(\)\]', 'vec![vx_str_owned("0")]', 'R14', 'str::to_owned -> stub (same characters)', count=None)
+        h.resub(r'vec!\[s\.to_owned\(\)\]', 'vec![s.clone()]', 'R14', 'String::to_owned -> clone', count=None)
+        if fnk == 'element_keys':
+            h.sig(fnk, ret='r', ensures=[
+                C('C06,C05 a-scalar-empty-or-not-has-exactly-the-key-0', "self is String ==> (r@.len() == 1 && r@[0]@ == seq!['0'])"),
+                C('C06,C05 an-unset-value-has-no-key', 'self is Unset ==> r@.len() == 0')])
+            h.at_body_start(fnk, "proof { assert(\"0\"@ =~= seq!['0']) by { reveal_strlit(\"0\"); } }")
+        else:
+            h.sig(fnk, ret='r', ensures=[
+                C('C06,C05 a-scalar-empty-or-not-is-its-one-element', 'self is String ==> (r@.len() == 1 && r@[0]@ == self->String_0@)'),
+                C('C06,C05 an-unset-value-has-no-element', 'self is Unset ==> r@.len() == 0')])
+        u.add(h)
     u.raw('}\n')
+    u.raw('''#[verifier::external_body] pub struct Shell { _p: u8 }
+#[verifier::external_body] pub fn assoc_keys(m: &BTreeMap<String, String>) -> Vec<String> { unimplemented!() }
+#[verifier::external_body] pub fn assoc_values(m: &BTreeMap<String, String>) -> Vec<String> { unimplemented!() }
+#[verifier::external_body] pub fn indexed_keys(m: &BTreeMap<u64, String>) -> Vec<String> { unimplemented!() }
+#[verifier::external_body] pub fn indexed_values(m: &BTreeMap<u64, String>) -> Vec<String> { unimplemented!() }
+#[verifier::external_body] pub fn dynamic_keys(g: &DynamicValueGetter, shell: &Shell) -> Vec<String> { unimplemented!() }
+#[verifier::external_body] pub fn dynamic_values(g: &DynamicValueGetter, shell: &Shell) -> Vec<String> { unimplemented!() }
+''')
     u.raw(FOOTER)
     u.assume('dependency', "vstd's specification of BTreeMap<u64, _> (view as a map, get) is used as shipped")
     u.assume('uninterp', 'assoc_view (contents of the associative representation)')
     u.assume('external_body', 'btree_get_by_str (BTreeMap<String, _>::get with a &str key returns the value stored under that text); vx_map_owned / vx_str_owned / vx_empty_string (R17: Cow<str> erased to String); the fn-pointer fields of ShellValue::Dynamic are projected to opaque structs')
     u.assume('stub', 'the Dynamic arm of try_get_cow_str (calls the getter) and every caller that goes from a parameter to this reading are NOT verified')
-    u.expected_min_fns = 2
+    u.expected_min_fns = 4
     u.counterexample = replay_scripts(repo, [
         ('a=([3]=xyz [5]=q); echo "<${a}> <${#a}> <${a:-unset}> <${a+set}>"', '<> <0> <unset> <>\n'),
         ('a=(p q); unset "a[0]"; echo "<$a> <${a:-unset}>"', '<> <unset>\n'),
         ('declare -A m=([1]=one [k]=v); echo "<$m> <${m:-unset}>"', '<> <unset>\n'),
         ('declare -A m=([0]=zero [k]=v); a=(x y); s=str; echo "<$m> <$a> <$s>"', '<zero> <x> <str>\n'),
+        ('n=; s=x; unset u; echo "<${!n[@]}> <${!s[@]}> <${!u[@]}> <${#n[@]}> <${n[@]}>"; for i in "${!n[@]}"; do echo "key $i"; done', '<0> <0> <> <1> <>\nkey 0\n'),
     ])
     return u
